@@ -8,6 +8,7 @@ CONSTANTS
  StoreKind = "geometric"
  Cap = 2
  Strategy = "product"
+ NOver = 0
  ModelKind = "multi"
  CommitEarly = FALSE
  MaxCalls = 3
